@@ -1015,7 +1015,7 @@ class CodecStream(core.Stream):
         return core.run_parallel([exe] + self.drive_args, cases, timeout=self.timeout)
 
 def streams(tier):
-    n = 3500 if tier == "quick" else 60000
+    n = 2500 if tier == "quick" else 60000
     na = 12 if tier == "quick" else 200
     to = 180 if tier == "quick" else 1500      # per chunk of cases; generous so that a loaded machine never splits chunks
     return [(CodecStream("codec", "codec", gen, predicate, nontrivial, keep_prefix=0, timeout=to), n),
@@ -1024,7 +1024,9 @@ def streams(tier):
 def run(r):
     return core.standard_run(r, __import__(__name__, fromlist=["x"]))
 
-RULE = ("byte strings through Reader.ReadPacket (versions 3/4/5): Python-encoded packets of all 15 types with random property sets in "
+RULE = ("`keep` ops decode 2-6 packets, keep them alive while further packets are decoded/packed (pooled buffers reused) and only then "
+        "dump and re-encode all of them (aliasing of decoded fields); "
+        "byte strings through Reader.ReadPacket (versions 3/4/5): Python-encoded packets of all 15 types with random property sets in "
         "random order, ~35% byte-level mutants (truncation, remaining length ±1/max/non-canonical, flags, length fields, inserted/deleted "
         "bytes, trailing data), local defects (bad UTF-8, wildcards, duplicate/foreign/unknown properties, bad flags) and 6% raw random "
         "bytes; plus validity helpers, variable byte integers, Message.TotalBytes/MessageToPublish, multi-packet streams, allocation probes. "
